@@ -5,6 +5,7 @@
 //   QM_LIMIT  : a model capacity; exceeding it cuts the path (assume(false)), never an alarm
 #pragma once
 #include <initializer_list>
+#include <iterator>
 #include <utility>
 #include <type_traits>
 #include <cstddef>
@@ -905,10 +906,39 @@ template<typename T, int CAP = QM_LIST_CAP> class QList
 public:
     int m_n;
     T m_a[CAP];
-    typedef T *iterator;
-    typedef const T *const_iterator;
+    // index-based random access iterators (concrete indices fold in symex; validity is checkable)
+    template<typename L, typename V> struct iter_base {
+        typedef std::random_access_iterator_tag iterator_category;
+        typedef T value_type; typedef int difference_type; typedef V *pointer; typedef V &reference;
+        L *l; int i;
+        iter_base() : l(nullptr), i(0) { }
+        iter_base(L *l_, int i_) : l(l_), i(i_) { }
+        template<typename L2, typename V2> iter_base(const iter_base<L2, V2> &o) : l(o.l), i(o.i) { }
+        V &operator*() const { QM_ASSERT(l != nullptr && i >= 0 && i < l->m_n, "QList iterator dereferenced outside [begin,end)"); return l->m_a[i]; }
+        V *operator->() const { QM_ASSERT(l != nullptr && i >= 0 && i < l->m_n, "QList iterator dereferenced outside [begin,end)"); return &l->m_a[i]; }
+        V &operator[](int k) const { return *(*this + k); }
+        iter_base &operator++() { ++i; return *this; }
+        iter_base operator++(int) { iter_base t(*this); ++i; return t; }
+        iter_base &operator--() { --i; return *this; }
+        iter_base operator--(int) { iter_base t(*this); --i; return t; }
+        iter_base &operator+=(int k) { i += k; return *this; }
+        iter_base &operator-=(int k) { i -= k; return *this; }
+        iter_base operator+(int k) const { return iter_base(l, i + k); }
+        iter_base operator-(int k) const { return iter_base(l, i - k); }
+        template<typename L2, typename V2> int operator-(const iter_base<L2, V2> &o) const { return i - o.i; }
+        template<typename L2, typename V2> bool operator==(const iter_base<L2, V2> &o) const { return i == o.i; }
+        template<typename L2, typename V2> bool operator!=(const iter_base<L2, V2> &o) const { return i != o.i; }
+        template<typename L2, typename V2> bool operator<(const iter_base<L2, V2> &o) const { return i < o.i; }
+        template<typename L2, typename V2> bool operator>(const iter_base<L2, V2> &o) const { return i > o.i; }
+        template<typename L2, typename V2> bool operator<=(const iter_base<L2, V2> &o) const { return i <= o.i; }
+        template<typename L2, typename V2> bool operator>=(const iter_base<L2, V2> &o) const { return i >= o.i; }
+    };
+    typedef iter_base<QList, T> iterator;
+    typedef iter_base<const QList, const T> const_iterator;
     typedef T value_type;
     typedef int size_type;
+    typedef T &reference;
+    typedef const T &const_reference;
 
     QList() : m_n(0) { }
     QList(const QList &o) : m_n(0) { for (int i = 0; i < CAP; ++i) if (i < o.m_n) m_a[i] = o.m_a[i]; m_n = o.m_n; }
@@ -921,14 +951,14 @@ public:
     bool empty() const { return m_n == 0; }
     void clear() { m_n = 0; }
     void reserve(int n) { qm_alloc_request(n); }
-    iterator begin() { return m_a; }
-    iterator end() { return m_a + m_n; }
-    const_iterator begin() const { return m_a; }
-    const_iterator end() const { return m_a + m_n; }
-    const_iterator cbegin() const { return m_a; }
-    const_iterator cend() const { return m_a + m_n; }
-    const_iterator constBegin() const { return m_a; }
-    const_iterator constEnd() const { return m_a + m_n; }
+    iterator begin() { return iterator(this, 0); }
+    iterator end() { return iterator(this, m_n); }
+    const_iterator begin() const { return const_iterator(this, 0); }
+    const_iterator end() const { return const_iterator(this, m_n); }
+    const_iterator cbegin() const { return const_iterator(this, 0); }
+    const_iterator cend() const { return const_iterator(this, m_n); }
+    const_iterator constBegin() const { return cbegin(); }
+    const_iterator constEnd() const { return cend(); }
     void append(const T &v) { QM_LIMIT(m_n < CAP); m_a[m_n++] = v; }
     void push_back(const T &v) { append(v); }
     void append(std::initializer_list<T> l) { for (const T &v : l) append(v); }
@@ -956,10 +986,10 @@ public:
     }
     iterator insert(iterator before, const T &v)
     {
-        QM_ASSERT(before >= m_a && before <= m_a + m_n, "QList::insert: iterator does not point into this list");
-        int i = int(before - m_a);
+        QM_ASSERT(before.l == this && before.i >= 0 && before.i <= m_n, "QList::insert: iterator does not point into this list");
+        int i = before.i;
         insert(i, v);
-        return m_a + i;
+        return iterator(this, i);
     }
     void removeAt(int i)
     {
@@ -970,7 +1000,7 @@ public:
     void removeFirst() { QM_ASSERT(m_n > 0, "QList::removeFirst on empty list"); removeAt(0); }
     void removeLast() { QM_ASSERT(m_n > 0, "QList::removeLast on empty list"); removeAt(m_n - 1); }
     T takeFirst() { T t = first(); removeFirst(); return t; }
-    iterator erase(iterator pos) { QM_ASSERT(pos >= m_a && pos < m_a + m_n, "QList::erase: bad iterator"); int i = int(pos - m_a); removeAt(i); return m_a + i; }
+    iterator erase(iterator pos) { QM_ASSERT(pos.l == this && pos.i >= 0 && pos.i < m_n, "QList::erase: bad iterator"); removeAt(pos.i); return iterator(this, pos.i); }
     int removeAll(const T &v)
     {
         int k = 0, removed = 0;
